@@ -609,13 +609,263 @@ theorem emits_seqAll7 {f1 f2 f3 f4 f5 f6 f7 : Enc → ERes Unit} {L1 L2 L3 L4 L5
       (laySeq L1 (laySeq L2 (laySeq L3 (laySeq L4 (laySeq L5 (laySeq L6 (laySeq L7 layEmpty))))))) :=
   emits_seq i1 h1 (emits_seq i2 h2 (emits_seqAll5 i3 i4 i5 i6 i7 h3 h4 h5 h6 h7))
 
+/-! ### SVCB / HTTPS parameters -/
+
+/-- the octets of a parameter value -/
+def svcValBytes : SvcVal → Bytes
+  | .mandatory keys => (keys.map u16b).flatten
+  | .alpn ids => flat ids
+  | .noDefaultAlpn => []
+  | .port p => u16b p
+  | .ipv4hint a => a
+  | .ech d => d
+  | .ipv6hint a => a
+  | .unknown d => d
+
+/-- the octets of the parameter list: key, length, value -/
+def paramsBytes (ps : List (Nat × SvcVal)) : Bytes :=
+  (ps.map fun kv => u16b kv.1 ++ (u16b (svcValBytes kv.2).length ++ svcValBytes kv.2)).flatten
+
+/-- the normal form of a parameter value under key `key` (what `SvcParamValue::read` produces and
+`SvcParamValue::emit` accepts) -/
+def SvcValOK (key : Nat) : SvcVal → Prop
+  | .mandatory keys => key = 0 ∧ keys ≠ [] ∧ ∀ k ∈ keys, k < 65536
+  | .alpn ids => key = 1 ∧ ids ≠ [] ∧ ∀ a ∈ ids, a.length ≤ 255 ∧ validUtf8 a = true
+  | .noDefaultAlpn => key = 2
+  | .port p => key = 3 ∧ p < 65536
+  | .ipv4hint a => key = 4 ∧ a.length % 4 = 0
+  | .ech _ => key = 5
+  | .ipv6hint a => key = 6 ∧ a.length % 16 = 0 ∧ ∀ x ∈ a, x < 256
+  | .unknown _ => 7 ≤ key
+
+/-- keys strictly increasing (after `last`), each value in normal form and shorter than 64 KiB -/
+def SvcParamsOK : Option Nat → List (Nat × SvcVal) → Prop
+  | _, [] => True
+  | last, (k, v) :: rest => (∀ lk, last = some lk → lk < k) ∧ k < 65536 ∧ SvcValOK k v ∧
+      (svcValBytes v).length < 65536 ∧ SvcParamsOK (some k) rest
+
+theorem chunks_flatten (n : Nat) : ∀ (fuel : Nat) (l : Bytes), l.length ≤ fuel → (chunks n fuel l).flatten = l
+  | 0, l, h => by
+    have : l = [] := List.eq_nil_of_length_eq_zero (by omega)
+    subst this; simp [chunks]
+  | fuel + 1, [], _ => by simp [chunks]
+  | fuel + 1, a :: l, h => by
+    simp only [chunks, List.flatten_cons]
+    rw [chunks_flatten n fuel _ (by simp only [List.length_drop, List.length_cons] at h ⊢; omega)]
+    exact List.take_append_drop _ _
+
+theorem emits_slices : ∀ (cs : List Bytes), Emits (seqAll (cs.map fun a => fun e => e.emitSlice a)) (laySeg cs.flatten)
+  | [] => by simpa [seqAll] using emits_nothing_seg
+  | c :: cs => by
+    have := emits_seg_seq (emits_emitSlice c) (emits_slices cs)
+    simpa [seqAll] using this
+
+theorem emits_u16s : ∀ (ks : List Nat), Emits (seqAll (ks.map fun k => fun e => e.emitU16 k)) (laySeg (ks.map u16b).flatten)
+  | [] => by simpa [seqAll] using emits_nothing_seg
+  | k :: ks => by
+    have := emits_seg_seq (emits_emitU16 k) (emits_u16s ks)
+    simpa [seqAll, u16b] using this
+
+theorem emits_pairChunks : ∀ (cs : List Bytes), (∀ c ∈ cs, c.length % 2 = 0 ∧ ∀ x ∈ c, x < 256) →
+    Emits (seqAll (cs.map emitPairs)) (laySeg cs.flatten)
+  | [], _ => by simpa [seqAll] using emits_nothing_seg
+  | c :: cs, h => by
+    have hc := h c (by simp)
+    have := emits_seg_seq (emits_emitPairs c hc.1 hc.2) (emits_pairChunks cs (fun x hx => h x (by simp [hx])))
+    simpa [seqAll] using this
+
+theorem chunks16_ok : ∀ (fuel : Nat) (l : Bytes), l.length % 16 = 0 → (∀ x ∈ l, x < 256) →
+    ∀ c ∈ chunks 16 fuel l, c.length % 2 = 0 ∧ ∀ x ∈ c, x < 256
+  | 0, l, _, _ => by simp [chunks]
+  | fuel + 1, [], _, _ => by simp [chunks]
+  | fuel + 1, a :: l, hl, hb => by
+    intro c hc
+    simp only [chunks, List.mem_cons] at hc
+    have h16 : (a :: l).length ≥ 16 := by
+      simp only [List.length_cons] at hl ⊢; omega
+    rcases hc with rfl | hc
+    · refine ⟨by simp only [List.length_take]; omega, fun x hx => hb x (List.mem_of_mem_take hx)⟩
+    · exact chunks16_ok fuel _ (by simp only [List.length_drop]; omega)
+        (fun x hx => hb x (List.mem_of_mem_drop hx)) c hc
+
+theorem emits_ifErr {f : Enc → ERes Unit} {L : Lay} (c : Prop) [Decidable c] (hc : ¬ c) (hf : Emits f L) :
+    Emits (fun e => if c then .err .other e else f e) L := by
+  have : (fun e => if c then ERes.err EncErr.other e else f e) = f := by funext e; rw [if_neg hc]
+  rw [this]; exact hf
+
+theorem emits_emitSvcVal (k : Nat) (v : SvcVal) (h : SvcValOK k v) : Emits (emitSvcVal v) (laySeg (svcValBytes v)) := by
+  cases v with
+  | mandatory keys =>
+    unfold emitSvcVal svcValBytes
+    refine emits_ifErr _ ?_ (emits_u16s keys)
+    have := h.2.1; cases keys <;> simp_all
+  | alpn ids =>
+    unfold emitSvcVal svcValBytes
+    refine emits_ifErr _ ?_ (emits_txt ids)
+    have := h.2.1; cases ids <;> simp_all
+  | noDefaultAlpn => exact emits_nothing_seg
+  | port p => exact emits_emitU16 p
+  | ipv4hint a =>
+    unfold emitSvcVal svcValBytes
+    have := emits_slices (chunks 4 a.length a)
+    rwa [chunks_flatten 4 a.length a (Nat.le_refl _)] at this
+  | ech d => exact emits_emitSlice d
+  | ipv6hint a =>
+    unfold emitSvcVal svcValBytes
+    have := emits_pairChunks (chunks 16 a.length a) (chunks16_ok a.length a h.2.1 h.2.2)
+    rwa [chunks_flatten 16 a.length a (Nat.le_refl _)] at this
+  | unknown d => exact emits_emitSlice d
+
+theorem lenPrefixedTry_ok {body : Enc → ERes Unit} {e e' : Enc} (h : Enc.lenPrefixedTry body e = .ok () e') :
+    Enc.lenPrefixed body e = .ok () e' := by
+  unfold Enc.lenPrefixedTry at h
+  unfold Enc.lenPrefixed
+  cases hpl : e.place 2 with
+  | panic s => rw [hpl] at h; simp at h
+  | err k e1 => rw [hpl] at h; simp at h
+  | ok start e1 =>
+    rw [hpl] at h; simp only at h ⊢
+    cases hb : body e1 with
+    | panic s => rw [hb] at h; simp at h
+    | err k e2 => rw [hb] at h; simp at h
+    | ok u e2 =>
+      rw [hb] at h; simp only at h ⊢
+      cases hl : e2.lenSincePlace start 2 with
+      | panic s => rw [hl] at h; simp at h
+      | err => rw [hl] at h; simp at h
+      | ok len =>
+        rw [hl] at h; simp only at h ⊢
+        by_cases hbig : len > 65535
+        · simp [hbig] at h
+        · simp only [hbig, ↓reduceIte] at h ⊢; exact h
+
+/-- a length-prefixed octet string is an octet string -/
+theorem emits_lenSegTry {body : Enc → ERes Unit} {vb : Bytes} (hb : Emits body (laySeg vb)) :
+    Emits (Enc.lenPrefixedTry body) (laySeg (u16b vb.length ++ vb)) := by
+  intro H e e' happ hinv hH hnl h
+  have p := emits_lenPrefixed (isLayout_seg vb) hb H e e' happ hinv hH hnl (lenPrefixedTry_ok h)
+  refine ⟨p.inv, p.app, p.le, p.pre, ?_, p.canon, p.ne, p.max⟩
+  obtain ⟨len, hlen, hseg, hbody, hq⟩ := p.lay
+  obtain ⟨hs2, hq2⟩ := hbody
+  have hl : len = vb.length := by omega
+  subst hl
+  refine ⟨segAt_concat hseg (by simpa [u16b] using hs2), ?_⟩
+  simp only [List.length_append, u16b, List.length_cons, List.length_nil]; omega
+
+theorem emits_emitSvcParams : ∀ (ps : List (Nat × SvcVal)) (last : Option Nat), SvcParamsOK last ps →
+    Emits (emitSvcParams last ps) (laySeg (paramsBytes ps))
+  | [], last, _ => by unfold emitSvcParams; simpa [paramsBytes] using emits_nothing_seg
+  | (k, v) :: rest, last, h => by
+    obtain ⟨hlast, hk, hv, hlen, hrest⟩ := h
+    unfold emitSvcParams
+    refine emits_ifErr _ ?_ ?_
+    · cases last with
+      | none => simp
+      | some lk => have := hlast lk rfl; simp; omega
+    have := emits_seg_seq (emits_emitU16 k) (emits_seg_seq (emits_lenSegTry (emits_emitSvcVal k v hv))
+      (emits_emitSvcParams rest (some k) hrest))
+    simpa [paramsBytes, u16b, List.append_assoc] using this
+
+/-! the decoder inverts it -/
+
+theorem svcKeys_bytes : ∀ (keys : List Nat), (∀ k ∈ keys, k < 65536) → svcKeys (keys.map u16b).flatten = .ok keys
+  | [], _ => by simp [svcKeys]
+  | k :: ks, h => by
+    have hk := h k (by simp)
+    have ih := svcKeys_bytes ks (fun x hx => h x (by simp [hx]))
+    simp only [List.map_cons, List.flatten_cons, u16b, List.cons_append, List.nil_append, svcKeys, ih,
+      Outcome.map, u16_split k hk]
+
+theorem svcAlpns_flat : ∀ (ids : List Bytes), (∀ a ∈ ids, a.length ≤ 255 ∧ validUtf8 a = true) →
+    svcAlpns (flat ids) = .ok ids
+  | [], _ => by simp [flat, svcAlpns]
+  | a :: ids, h => by
+    have ha := h a (by simp)
+    have ih := svcAlpns_flat ids (fun x hx => h x (by simp [hx]))
+    rw [flat_cons, svcAlpns]
+    have hle : a.length ≤ (a ++ flat ids).length := by simp
+    simp only [hle, ↓reduceDIte, List.take_left, List.drop_left, ha.2, ↓reduceIte, ih, Outcome.map]
+
+theorem svcValue_bytes (k : Nat) (v : SvcVal) (h : SvcValOK k v) : svcValue k (svcValBytes v) = .ok v := by
+  cases v with
+  | mandatory keys =>
+    obtain ⟨rfl, hne, hk⟩ := h
+    cases keys with
+    | nil => exact absurd rfl hne
+    | cons a t => simp only [svcValue, svcValBytes, ↓reduceIte, svcKeys_bytes (a :: t) hk]
+  | alpn ids =>
+    obtain ⟨rfl, hne, hk⟩ := h
+    cases ids with
+    | nil => exact absurd rfl hne
+    | cons a t => simp only [svcValue, svcValBytes, Nat.reduceEqDiff, ↓reduceIte, svcAlpns_flat (a :: t) hk]
+  | noDefaultAlpn =>
+    have hk : k = 2 := h
+    subst hk
+    simp [svcValue, svcValBytes]
+  | port p =>
+    obtain ⟨rfl, hp⟩ := h
+    simp only [svcValue, svcValBytes, Nat.reduceEqDiff, ↓reduceIte, u16b, u16_split p hp]
+  | ipv4hint a =>
+    obtain ⟨rfl, ha⟩ := h
+    simp [svcValue, svcValBytes, ha]
+  | ech d =>
+    have hk : k = 5 := h
+    subst hk
+    simp [svcValue, svcValBytes]
+  | ipv6hint a =>
+    obtain ⟨rfl, ha, _⟩ := h
+    simp [svcValue, svcValBytes, ha]
+  | unknown d =>
+    have hk : 7 ≤ k := h
+    simp only [svcValue, svcValBytes]
+    rw [if_neg (by omega), if_neg (by omega), if_neg (by omega), if_neg (by omega), if_neg (by omega),
+      if_neg (by omega), if_neg (by omega)]
+
+theorem svcParams_bytes : ∀ (ps : List (Nat × SvcVal)) (last : Option Nat) (acc : List (Nat × SvcVal)),
+    SvcParamsOK last ps → svcParams (paramsBytes ps) last acc = (.ok (acc ++ ps), (paramsBytes ps).length)
+  | [], last, acc, _ => by simp [paramsBytes, svcParams]
+  | (k, v) :: rest, last, acc, h => by
+    obtain ⟨hlast, hk, hv, hlen, hrest⟩ := h
+    have ih := svcParams_bytes rest (some k) (acc ++ [(k, v)]) hrest
+    have hb : paramsBytes ((k, v) :: rest) = k / 256 % 256 :: k % 256 :: (svcValBytes v).length / 256 % 256 ::
+        (svcValBytes v).length % 256 :: (svcValBytes v ++ paramsBytes rest) := by
+      simp [paramsBytes, u16b]
+    rw [hb]
+    have hnot : ¬ (svcValBytes v).length > (svcValBytes v ++ paramsBytes rest).length := by simp
+    cases last with
+    | none =>
+      simp only [svcParams, u16_split k hk, u16_split _ hlen, hnot, ↓reduceDIte, List.take_left, List.drop_left,
+        svcValue_bytes k v hv, Bool.false_eq_true, ↓reduceIte, ih]
+      simp only [List.append_assoc, List.cons_append, List.nil_append, List.length_cons, List.length_append]
+      congr 1
+      omega
+    | some lk =>
+      have := hlast lk rfl
+      have hd : decide (lk ≥ k) = false := by simp; omega
+      simp only [svcParams, u16_split k hk, u16_split _ hlen, hnot, ↓reduceDIte, List.take_left, List.drop_left,
+        svcValue_bytes k v hv, hd, Bool.false_eq_true, ↓reduceIte, ih]
+      simp only [List.append_assoc, List.cons_append, List.nil_append, List.length_cons, List.length_append]
+      congr 1
+      omega
+
+theorem Reads.parsePrefix {α} {p : Bytes → Outcome α × Nat} {buf : Bytes} {pos : Nat} {a : α} {used : Nat}
+    (h : p (buf.drop pos) = (.ok a, used)) (hu : pos + used ≤ buf.length) :
+    Reads (Rd.parsePrefix p) buf pos a (pos + used) := by
+  intro t
+  refine ⟨t + used, ?_⟩
+  simp only [Rd.parsePrefix, h]
+  have : min used (buf.drop pos).length = used := by
+    rw [List.length_drop]; omega
+  rw [this]
+
+
 /-- the RDATA variants covered by the round-trip proof so far -/
 def _root_.HickoryVerif.Wire.RData.proved : RData → Bool
   | .a _ | .aaaa _ | .name _ | .mx _ _ | .soa _ _ _ _ _ _ _ | .txt _ | .srv _ _ _ _ | .hinfo _ _ | .null _
   | .unknown _ _
   | .ds _ _ _ _ | .dnskey _ _ _ _ | .tlsa _ _ _ _ | .sshfp _ _ _ | .openpgpkey _ | .cert _ _ _ _
   | .nsec3param _ _ _ | .caa _ _ _ _ | .key _ _ _ _ | .naptr _ _ _ _ _ _ | .sig _ _ _ _ _ _ _ _ _
-  | .tsig _ _ _ _ _ _ _ | .nsec _ _ | .nsec3 _ _ _ _ _ _ | .csync _ _ _ => true
+  | .tsig _ _ _ _ _ _ _ | .nsec _ _ | .nsec3 _ _ _ _ _ _ | .csync _ _ _ | .svcb _ _ _ => true
   | _ => false
 
 /-- the octets `RecordTypeSet::emit` writes for a set that carries its original encoding -/
@@ -670,6 +920,8 @@ def layRData : RData → Lay
   | .nsec3 oo iter salt hash b32 ts => laySeg (blobWire (.nsec3 oo iter salt hash b32 ts))
   | .csync serial flags ts => laySeg (blobWire (.csync serial flags ts))
   | .nsec next ts => laySeq (layName next.labels) (laySeq (laySeg (tsBytes ts)) layEmpty)
+  | .svcb prio target ps =>
+    laySeq (laySeg (u16b prio)) (laySeq (layName target.labels) (laySeq (laySeg (paramsBytes ps)) layEmpty))
   | .naptr order pref flags services regexp n =>
     laySeq (laySeg (u16b order)) (laySeq (laySeg (u16b pref)) (laySeq (laySeg (flags.length :: flags))
       (laySeq (laySeg (services.length :: services)) (laySeq (laySeg (regexp.length :: regexp))
@@ -706,6 +958,8 @@ def _root_.HickoryVerif.Wire.RData.namesWF : RData → Prop
   | .nsec next ts => next.WF ∧ ts.orig.isSome = true
   | .nsec3 _ _ salt hash _ ts => salt.length < 256 ∧ hash.length < 256 ∧ ts.orig.isSome = true
   | .csync _ _ ts => ts.orig.isSome = true
+  -- SVCB / HTTPS: keys strictly increasing, every value in its normal form
+  | .svcb _ target ps => target.WF ∧ SvcParamsOK none ps
   | .naptr _ _ _ _ _ n => n.WF
   | .sig _ alg labels _ _ _ _ signer _ => signer.WF ∧ alg < 256 ∧ labels < 256
   -- TSIG: the `u16::try_from` / 48-bit conversions of `TSIG::emit` succeed
@@ -731,6 +985,8 @@ theorem isLayout_rdata (d : RData) (hp : d.proved = true) : IsLayout (layRData d
   case null => exact isLayout_seg _
   case unknown => exact isLayout_seg _
   case nsec => exact isLayout_seq (isLayout_name _) (isLayout_seq (isLayout_seg _) isLayout_empty)
+  case svcb =>
+    exact isLayout_seq (isLayout_seg _) (isLayout_seq (isLayout_name _) (isLayout_seq (isLayout_seg _) isLayout_empty))
   case naptr =>
     exact isLayout_seq (isLayout_seg _) (isLayout_seq (isLayout_seg _) (isLayout_seq (isLayout_seg _)
       (isLayout_seq (isLayout_seg _) (isLayout_seq (isLayout_seg _) (isLayout_seq (isLayout_name _) isLayout_empty)))))
@@ -818,6 +1074,9 @@ theorem emits_emitRData (t : Nat) (d : RData) (hp : d.proved = true) (hwf : d.na
       (emits_seg_seq (emits_emitSlice salt) emits_nothing_seg))))
     have hmod : salt.length % 256 = salt.length := Nat.mod_eq_of_lt hwf
     simpa [seqAll, blobWire, u16b, hmod] using this
+  case svcb prio target ps =>
+    exact emits_withRdataBehavior (emits_seqAll3 (isLayout_seg _) (isLayout_name _) (isLayout_seg _)
+      (emits_emitU16 prio) (emits_emitName target hwf.1) (emits_emitSvcParams ps none hwf.2)) _
   case nsec next ts =>
     exact emits_withRdataBehavior (emits_seqAll2 (isLayout_name _) (isLayout_seg _) (emits_emitName next hwf.1)
       (emits_emitTypeSet ts hwf.2)) _
@@ -1056,6 +1315,7 @@ def _root_.HickoryVerif.Wire.RData.typeOK (t : Nat) : RData → Prop
   | .nsec _ ts => t = 47 ∧ TypeSetOK ts
   | .nsec3 _ iter _ hash b32 ts => t = 50 ∧ iter < 65536 ∧ b32 = b32Label hash ∧ TypeSetOK ts
   | .csync serial flags ts => t = 62 ∧ serial < 4294967296 ∧ flags < 65536 ∧ (flags % 256) / 4 = 0 ∧ TypeSetOK ts
+  | .svcb prio _ _ => (t = 64 ∨ t = 65) ∧ prio < 65536
   | _ => False
 
 /-- the value with every embedded name made fully qualified (what `Name::read` returns) -/
@@ -1069,6 +1329,7 @@ def _root_.HickoryVerif.Wire.RData.fq : RData → RData
   -- `TsigAlgorithm::to_name()` gives the algorithm name back relative
   | .tsig alg t f m o e x => .tsig { alg with fqdn := false } t f m o e x
   | .nsec next ts => .nsec { next with fqdn := true } ts
+  | .svcb prio target ps => .svcb prio { target with fqdn := true } ps
   | d => d
 
 theorem drop_of_segAt_end {buf d : Bytes} {p : Nat} (h : SegAt buf p d) (he : p + d.length = buf.length) :
@@ -1426,6 +1687,26 @@ theorem reads_rdataBody {H : Nat × Nat → Prop} {opq : Nat → Rd Bytes} {t : 
       cases oo <;> simp
     refine Reads.bind hhead ?_
     exact Reads.pure _ _ _
+  case svcb prio target ps =>
+    obtain ⟨ht, hprio⟩ := hty
+    obtain ⟨m1, l1, m2, l2, m3, l3, l4⟩ := hl
+    obtain ⟨rfl, _⟩ := l4
+    obtain ⟨g3, e3⟩ := l3
+    have hbody : readRDataBody opq t = (do
+        let prio ← Rd.readU16
+        let target ← Rd.name
+        let ps ← Rd.parsePrefix fun d => svcParams d none []
+        pure (.svcb prio target ps)) := by
+      rcases ht with rfl | rfl <;> rfl
+    rw [hbody]
+    refine Reads.bind (reads_u16_of_seg l1 hprio) ?_
+    refine Reads.bind (reads_name_of_lay l2 hwf.1) ?_
+    have hd : buf.drop m2 = paramsBytes ps := drop_of_segAt_end g3 e3.symm
+    have hpp := Reads.parsePrefix (p := fun d => svcParams d none []) (buf := buf) (pos := m2) (a := ps)
+      (used := (paramsBytes ps).length) (by rw [hd]; simpa using svcParams_bytes ps none [] hwf.2) (by omega)
+    rw [← e3] at hpp
+    refine Reads.bind hpp ?_
+    exact Reads.pure _ _ _
   case nsec next ts =>
     obtain ⟨rfl, hts⟩ := hty
     obtain ⟨m1, l1, m2, l2, l3⟩ := hl
@@ -1715,6 +1996,11 @@ theorem layRData_pos {H : Nat × Nat → Prop} {b : Bytes} {p q : Nat} (d : RDat
     have h2 := h1.pos_lt_end
     have := (isLayout_seq (isLayout_seg _) isLayout_empty).bounds rest
     omega
+  case svcb prio target ps =>
+    obtain ⟨m1, l1, rest⟩ := hl
+    obtain ⟨_, rfl⟩ := l1
+    have := (isLayout_seq (isLayout_name _) (isLayout_seq (isLayout_seg _) isLayout_empty)).bounds rest
+    simp [u16b] at *; omega
   case tsig alg time fudge mac oid err other =>
     obtain ⟨m1, l1, rest⟩ := hl
     obtain ⟨F, h1, _⟩ := l1
